@@ -60,6 +60,10 @@ pub struct RrScript {
     pub replier_first: bool,
     /// use the real library Replier (handler delay = plan delay) instead of the raw peer
     pub library_replier: bool,
+    /// fault: the requestor clients' connections are closed (H1 hook) this long after the calls
+    /// started; calls continue across the reconnect. Only reply attribution is judged then.
+    #[serde(default)]
+    pub outage_at_ms: Option<u64>,
 }
 
 pub fn gen_script(rng: &mut Rng) -> RrScript {
@@ -91,7 +95,20 @@ pub fn gen_script(rng: &mut Rng) -> RrScript {
         streams[s].clones[c].push(CallSpec { gap_ms: *rng.pick(&[0u64, 0, 0, 1, 10, 100]), k, plan, pad: *rng.pick(&[0usize, 0, 10, 1000]) });
         k += 1;
     }
-    RrScript { net: mild_net(rng), rt_seed: rng.next(), n_clients, streams, timeout_ms, replier_first: rng.chance(1, 2), library_replier }
+    let outage_at_ms = if !library_replier && rng.chance(1, 4) { Some(*rng.pick(&[30u64, 150, 400, 900])) } else { None };
+    if outage_at_ms.is_some() {
+        // keep traffic flowing on every clone well past the reconnect, with overlapping calls
+        for s in streams.iter_mut() {
+            for cl in s.clones.iter_mut() {
+                let extra = rng.usize(3, 6);
+                for _ in 0..extra {
+                    cl.push(CallSpec { gap_ms: *rng.pick(&[50u64, 150, 300]), k, plan: *rng.pick(&[Plan::Now, Plan::After(30), Plan::After(100), Plan::After(300)]), pad: 0 });
+                    k += 1;
+                }
+            }
+        }
+    }
+    RrScript { net: mild_net(rng), rt_seed: rng.next(), n_clients, streams, timeout_ms, replier_first: rng.chance(1, 2), library_replier, outage_at_ms }
 }
 
 #[derive(Clone, Debug)]
@@ -113,7 +130,7 @@ fn reply_text(req: &str) -> String {
 
 async fn scenario(world: Rc<World>, sc: RrScript) -> AResult<(Vec<CallResult>, HashMap<usize, u64>, Vec<String>)> {
     world.start_server(ServerOpts::default())?;
-    let backoff = BackoffStrategy::constant().with_max_attempts(0);
+    let backoff = if sc.outage_at_ms.is_some() { BackoffStrategy::constant().with_max_attempts(5).with_step(Duration::from_millis(50)) } else { BackoffStrategy::constant().with_max_attempts(0) };
     let topic_s = "/rpc/echo";
     let notes: Rc<RefCell<Vec<String>>> = Rc::new(RefCell::new(vec![]));
     // plan lookup by k
@@ -266,6 +283,15 @@ async fn scenario(world: Rc<World>, sc: RrScript) -> AResult<(Vec<CallResult>, H
             })));
         }
     }
+    if let Some(at) = sc.outage_at_ms {
+        let cs: Vec<selium::Client> = clients.iter().map(|c| c.1.clone()).collect();
+        tokio::task::spawn_local(async move {
+            tokio::time::sleep(Duration::from_millis(at)).await;
+            for c in cs {
+                c.verif_close_connection().await;
+            }
+        });
+    }
     for t in tasks {
         let _ = t.await;
     }
@@ -287,10 +313,17 @@ pub fn execute(prop: &str, sc: &RrScript, opts: &ExecOpts) -> Outcome {
         }
         Ok(r) => {
             fold(&mut out, prop, &r);
-            let lost = r.events.iter().any(|e| e.message.contains("lost connection"));
+            let outage = sc.outage_at_ms.is_some();
+            let lost = !outage && r.events.iter().any(|e| e.message.contains("lost connection"));
             if lost {
                 out.inconclusive = true;
                 out.probe("connection_lost_during_no_loss_family");
+            }
+            if outage {
+                out.fault("requestor_connections_closed_mid_run");
+                if r.events.iter().any(|e| e.message.contains("Successfully reconnected")) {
+                    out.probe("calls_continued_after_reconnect");
+                }
             }
             match &r.value {
                 None => {
@@ -314,7 +347,7 @@ pub fn execute(prop: &str, sc: &RrScript, opts: &ExecOpts) -> Outcome {
                     let quiet_net = sc.net.loss_ppm == 0;
                     let slack = 200 + 8 * (sc.net.min_delay_ms as u64 + sc.net.jitter_ms as u64);
                     let total: usize = plans.len();
-                    if results.len() != total && !lost {
+                    if results.len() != total && !lost && !outage {
                         out.violate(prop, "call-never-returned", "reqrep-e2e", format!("{} of {total} calls returned", results.len()));
                     }
                     let mut ok_order: Vec<usize> = vec![];
@@ -338,9 +371,13 @@ pub fn execute(prop: &str, sc: &RrScript, opts: &ExecOpts) -> Outcome {
                                     Some(t) if *t > cr.returned_ms => out.violate(prop, "reply-before-emission", "early", format!("call q{} returned at {} ms, its reply was emitted at {} ms", cr.k, cr.returned_ms, t)),
                                     _ => {}
                                 }
-                                if matches!(spec.plan, Plan::Never | Plan::Late) {
+                                if matches!(spec.plan, Plan::Never | Plan::Late) && !outage {
                                     out.violate(prop, "late-reply-returned", "reqrep-e2e", format!("call q{} (plan {:?}, timeout {} ms) returned Ok after {elapsed} ms", cr.k, spec.plan, sc.timeout_ms));
                                 }
+                            }
+                            Err(_) if outage => {
+                                // calls cut by the injected outage are not owed anything
+                                out.probe("calls_failed_around_outage");
                             }
                             Err(e) if cr.timeout_err => {
                                 if elapsed < sc.timeout_ms {
@@ -458,6 +495,11 @@ impl Family for ReqRepE2e {
         if sc.library_replier {
             let mut c = sc.clone();
             c.library_replier = false;
+            out.push(c);
+        }
+        if sc.outage_at_ms.is_some() {
+            let mut c = sc.clone();
+            c.outage_at_ms = None;
             out.push(c);
         }
         out.into_iter().map(|s| serde_json::to_value(s).unwrap()).collect()
